@@ -84,3 +84,70 @@ def TransposeShape.safe (s : TransposeShape) : Bool :=
   s.pollsCtxPerRow && s.returnsNilOnCtx && s.receiverUntouched
 
 end EtVerif
+
+namespace EtVerif
+
+/-- sparse.(*CSMatrix).Mmap (matrix.go): order of the significant steps and the cleanup `defer`s. -/
+structure MmapShape where
+  /-- `if nnz == 0 { return m.Munmap() }` before any file is created -/
+  zeroNnzReturnsEarly : Bool
+  /-- the significant calls, in source order -/
+  order : List String
+  /-- `defer` removing the temp file unless it was already unlinked, installed right after CreateTemp -/
+  removesFileOnFailure : Bool
+  /-- `defer` closing the descriptor while `file != nil` -/
+  closesFileOnFailure : Bool
+  /-- `defer` unmapping the new mapping while `mapped != nil` (it is set to nil on adoption) -/
+  unmapsOnFailure : Bool
+  /-- the copy loop polls `ctx.Done()` once per row and returns `ctx.Err()` -/
+  pollsCtxPerRow : Bool
+  /-- inside the loop the mapped span is recorded in a NEW table (`swapped[major] = span`) -/
+  repointsRows : Bool
+  /-- spans are capped (`entries[a:b:b]`) so that `append` cannot spill into the next row -/
+  capsSpans : Bool
+  /-- the receiver's `Entries` is assigned only after the loop (and after the old mapping was released) -/
+  installsAfterCopy : Bool
+deriving Repr, DecidableEq, Inhabited
+
+def MmapShape.expectedOrder : List String :=
+  ["CreateTemp", "Truncate", "Mmap", "Close", "Remove", "copy", "MunmapOld", "install", "adopt"]
+
+def MmapShape.safe (s : MmapShape) : Bool :=
+  s.zeroNnzReturnsEarly && decide (s.order = MmapShape.expectedOrder) && s.removesFileOnFailure &&
+  s.closesFileOnFailure && s.unmapsOnFailure && s.pollsCtxPerRow && s.repointsRows && s.capsSpans &&
+  s.installsAfterCopy
+
+/-- how the servers isolate stored collections (oapi/openapi.go, namedtrust.go, grpc/compute.go). -/
+structure StoreShape where
+  /-- loadStoredTrustMatrix: `deepcopy.Copy(c0)` inside `tm0.LockAndRun` -/
+  loadStoredDeepCopiesUnderLock : Bool
+  /-- getLocalTrust builds the body inside `tm.LockAndRun` -/
+  getReadsUnderLock : Bool
+  /-- NamedTrustMatrices.Set uses `Swap`; created = !loaded -/
+  setUsesSwap : Bool
+  /-- NamedTrustMatrices.Merge: `LoadOrStore` then a locked `Merge` on the loaded object -/
+  mergeLoadOrStoreThenLockedMerge : Bool
+  /-- DeleteLocalTrust uses `LoadAndDelete` -/
+  deleteUsesLoadAndDelete : Bool
+  /-- UpdateLocalTrust answers the generated 400 object when the body cannot be loaded -/
+  updateAnswers400 : Bool
+  /-- gRPC BasicCompute deep-copies local trust, pre-trust and global trust under their locks -/
+  grpcDeepCopiesInputs : Bool
+  /-- gRPC TrustMatrix.Update: the timestamp is only ever `Set` inside the `cmp > 0` case -/
+  grpcTimestampOnlyAdvances : Bool
+deriving Repr, DecidableEq, Inhabited
+
+def StoreShape.safe (s : StoreShape) : Bool :=
+  s.loadStoredDeepCopiesUnderLock && s.getReadsUnderLock && s.setUsesSwap &&
+  s.mergeLoadOrStoreThenLockedMerge && s.deleteUsesLoadAndDelete && s.updateAnswers400 &&
+  s.grpcDeepCopiesInputs && s.grpcTimestampOnlyAdvances
+
+/-- one partiality site: an expression of the repo's own code that can panic on bad data. -/
+structure Site where
+  file : String
+  func : String
+  kind : String     -- index | slice | panic | make
+  count : Nat
+deriving Repr, DecidableEq, Inhabited
+
+end EtVerif
